@@ -8,9 +8,9 @@ PID = 'C20'
 sys.setrecursionlimit(200000)
 
 
-def compile_histories(prog, others, seed, tmp, flags=()):
+def compile_histories(prog, others, seed, tmp, flags=(), histories=''):
     out = os.path.join(tmp, 'h%s_%s.pk' % (seed, hashlib.sha1(prog.encode()).hexdigest()[:8]))
-    env = dict(os.environ, PYTHONHASHSEED=str(seed), NMFU_VERIF='1', C20_FLAGS=' '.join(flags))
+    env = dict(os.environ, PYTHONHASHSEED=str(seed), NMFU_VERIF='1', C20_FLAGS=' '.join(flags), C20_HISTORIES=histories, C20_OPT_SELF='1' if os.environ.get('C20_TIER') == 'thorough' else '0')
     r = subprocess.run(['python3-vt', '-m', 'engines.c20_sub', out, prog] + others, cwd=chk.VERIF, env=env, capture_output=True, text=True, timeout=600)
     if r.returncode != 0 or not os.path.exists(out):
         return None, r.stderr[-400:]
@@ -20,6 +20,41 @@ def compile_histories(prog, others, seed, tmp, flags=()):
     return res, ''
 
 
+def foreign_outputs(snap, spec):
+    """OutputStorage objects that the machine's actions / conditions refer to and that are not declared by the program itself"""
+    own = {id(o) for o in spec.values()}
+    bad, seen = {}, set()
+    stack = []
+    for trs in snap.tr.values():
+        for t in trs:
+            stack += list(t.actions)
+            if t.cond is not None:
+                stack.append(t.cond)
+    while stack:
+        x = stack.pop()
+        if id(x) in seen or isinstance(x, (str, bytes, int, float, bool, type(None), nm.N.DFState, nm.N.DFTransition)):
+            continue
+        seen.add(id(x))
+        if isinstance(x, nm.N.OutputStorage):
+            if id(x) not in own:
+                bad[id(x)] = x.name
+            continue
+        if isinstance(x, dict):
+            stack += list(x.keys()) + list(x.values())
+        elif isinstance(x, (list, tuple, set, frozenset)):
+            stack += list(x)
+        elif hasattr(x, '__dict__') and not isinstance(x, type) and not callable(x):
+            stack += list(vars(x).values())
+    return sorted(bad.values())
+
+
+def _finding(job, name, kind, what, detail, sym, **kw):
+    f = {'kind': kind, 'what': what, 'detail': detail, 'sym': sym, 'pre': {'state': 0, 'vals': {}, 'strs': {}}, 'label': job['label'], 'cname': name, 'flags': list(job.get('flags', ())),
+         'replay': {'reproduced': True}, 'source': job['src'] if job.get('generated') else None}
+    f.update(kw)
+    return f
+
+
 def work(job):
     t0 = time.time()
     out = {'label': job['label'], 'cname': 'seeds' + str(job['seeds']), 'flags': [], 'status': 'ok', 'findings': [], 'stats': None, 'wall': 0}
@@ -27,57 +62,95 @@ def work(job):
     try:
         st = stepcmp.StepStats()
         runs = []
+        path = job['path']
+        if job.get('generated'):
+            path = os.path.join(tmp, 'gen.nmfu')
+            with open(path, 'w') as f:
+                f.write(job['src'])
         for sd in job['seeds']:
-            res, err = compile_histories(job['path'], job['others'], sd, tmp, job.get('flags', ()))
+            res, err = compile_histories(path, job['others'], sd, tmp, job.get('flags', ()), 'none' if sd in job.get('fresh_only_seeds', ()) else job.get('histories', 'base'))
             if res is None:
                 st.d['harness_errors'].append(f"{job['label']} seed {sd}: subprocess failed: {err}")
                 continue
+            meta = res.pop('__meta__', {})
+            for k, v in meta.items():
+                if k == 'rejected-history':
+                    st.d['cov']['history_programs_rejected_inside_macro_expansion'] = st.d['cov'].get('history_programs_rejected_inside_macro_expansion', 0) + sum(1 for x in v if x[0] == 'error' and x[2])
+                    st.d['cov']['history_programs_rejected'] = st.d['cov'].get('history_programs_rejected', 0) + sum(1 for x in v if x[0] == 'error')
+                    if not any(x[0] == 'error' and x[2] for x in v):
+                        st.d['harness_errors'].append(f"{job['label']} seed {sd}: no history program was rejected inside a macro expansion: {v}")
+                elif k == 'options-history':
+                    st.d['cov']['history_compilations_with_other_options'] = st.d['cov'].get('history_compilations_with_other_options', 0) + len(v)
             for h, d in res.items():
                 runs.append((f'seed{sd}/{h}', d))
         if not runs:
             out['status'] = 'harness-error:no run'
             return out
         ref_name, ref = runs[0]
+        if job.get('generated') and ref['verdict'] != 'ok':
+            st.d['harness_errors'].append(f"{job['label']}: a program of the check's own is not accepted by the compiler ({ref['verdict']} {ref['error']}): the shape it stands for is not exercised")
         L = None
         for name, d in runs[1:]:
             key = f"{job['label']} {ref_name}~{name}"
             st.d['obligations'] += 1
             if d['verdict'] != ref['verdict'] or (d['verdict'] != 'ok' and d['error'] != ref['error']):
-                out['findings'].append({'kind': 'c20-verdict', 'what': 'verdict depends on history/hash seed', 'detail': f"{ref_name}: {ref['verdict']} {ref['error']} vs {name}: {d['verdict']} {d['error']}",
-                                        'sym': 'verdict', 'pre': {'state': 0, 'vals': {}, 'strs': {}}, 'label': job['label'], 'cname': name, 'flags': [], 'replay': {'reproduced': True}})
+                out['findings'].append(_finding(job, name, 'c20-verdict', 'verdict depends on history/hash seed', f"{ref_name}: {ref['verdict']} {ref['error']} vs {name}: {d['verdict']} {d['error']}", 'verdict'))
                 continue
+            # the effective configuration (flag map, option values) is a function of the command line alone
+            cdiff = []
+            for fld in ('cfg_now', 'opts_now', 'cfg', 'opts'):
+                a, b = ref.get(fld), d.get(fld)
+                if a != b:
+                    cdiff += [f"{fld}.{k}: {(a or {}).get(k)!r} vs {(b or {}).get(k)!r}" for k in sorted(set(a or {}) | set(b or {})) if (a or {}).get(k) != (b or {}).get(k)]
+            if cdiff:
+                out['findings'].append(_finding(job, name, 'c20-config', 'effective configuration depends on history/hash seed (same source, same options)',
+                                                f"{ref_name} vs {name} (command line {d.get('flags')}): " + '; '.join(cdiff[:8]), 'config'))
+                continue   # reported; the machines were built under different effective options
             st.d['discharged'] += 1
             if d['verdict'] != 'ok':
                 continue
-            if L is None:
-                try:
-                    L = absm.Layout(ref['spec'])
-                except absm.Unsupported as e:
-                    out['status'] = 'unsupported:' + str(e)
-                    return out
-            strict = ref['cfg']['STRICT_DONE_TOKEN_GENERATION']
-            ma = absm.Machine(ref['post'], L, strict_done=strict); mb = absm.Machine(d['post'], L, strict_done=strict)
-            m, why = dfaiso.iso(ref['post'], d['post'])
-            fails = None
-            if m is not None:
-                fails = m2m.step_relation(ma, mb, L, m, st, ref['cfg']['EOF_SUPPORT'], key)
-                st.d['cov']['certificates'] = st.d['cov'].get('certificates', 0) + (0 if fails else 1)
-                renum = sum(1 for x, y in m.items() if x in ref['post'].index and y in d['post'].index and ref['post'].index[x] != d['post'].index[y])
-                st.d['cov']['state_renumberings_seen'] = st.d['cov'].get('state_renumberings_seen', 0) + (1 if renum else 0)
-            if m is None or fails:
-                st.d['cov'].setdefault('not_isomorphic', []).append(f'{key}: {why or fails[:1]}')
-                wit = []
-                for with_end in ([False, True] if ref['cfg']['EOF_SUPPORT'] else [False]):
-                    w = m2m.bmc(ma, mb, L, job['K'], with_end, st, key, max_paths=job['max_paths'])
-                    if w is None:
-                        st.d['inconclusive'].append(f'{key}: machines not isomorphic and BMC over its path budget')
-                    else:
-                        wit += w
-                for x in wit[:2]:
-                    ta = m2m.concrete_trace(ma, L, x['input'], x['end']); tb = m2m.concrete_trace(mb, L, x['input'], x['end'])
-                    out['findings'].append({'kind': 'c20-diff', 'what': 'machines from two compilations of the same input differ', 'detail': x['detail'], 'sym': 'input',
-                                            'pre': {'state': 0, 'vals': {}, 'strs': {}}, 'bytes': x['input'], 'label': job['label'], 'cname': name, 'flags': [],
-                                            'replay': {'reproduced': ta != tb, 'a': str(ta)[:400], 'b': str(tb)[:400]}})
+            if d.get('spec_summary') != ref.get('spec_summary'):
+                out['findings'].append(_finding(job, name, 'c20-config', 'declared outputs depend on history/hash seed', f"{ref_name}: {ref.get('spec_summary')} vs {name}: {d.get('spec_summary')}", 'outputs'))
+                continue
+            fo = foreign_outputs(d['post'], d['spec'])
+            if fo:
+                out['findings'].append(_finding(job, name, 'c20-diff', 'machine refers to outputs that the program does not declare (left behind by an earlier compilation)',
+                                                f"{name}: actions/conditions use {fo}; declared: {sorted(d['spec'])}", 'outputs'))
+                continue
+            try:
+                if L is None:
+                    try:
+                        L = absm.Layout(ref['spec'])
+                    except absm.Unsupported as e:
+                        out['status'] = 'unsupported:' + str(e)
+                        return out
+                strict = ref['cfg']['STRICT_DONE_TOKEN_GENERATION']
+                ma = absm.Machine(ref['post'], L, strict_done=strict); mb = absm.Machine(d['post'], L, strict_done=strict)
+                m, why = dfaiso.iso(ref['post'], d['post'])
+                fails = None
+                if m is not None:
+                    fails = m2m.step_relation(ma, mb, L, m, st, ref['cfg']['EOF_SUPPORT'], key)
+                    st.d['cov']['certificates'] = st.d['cov'].get('certificates', 0) + (0 if fails else 1)
+                    renum = sum(1 for x, y in m.items() if x in ref['post'].index and y in d['post'].index and ref['post'].index[x] != d['post'].index[y])
+                    st.d['cov']['state_renumberings_seen'] = st.d['cov'].get('state_renumberings_seen', 0) + (1 if renum else 0)
+                if m is None or fails:
+                    st.d['cov'].setdefault('not_isomorphic', []).append(f'{key}: {why or fails[:1]}')
+                    wit = []
+                    for with_end in ([False, True] if ref['cfg']['EOF_SUPPORT'] else [False]):
+                        w = m2m.bmc(ma, mb, L, job['K'], with_end, st, key, max_paths=job['max_paths'])
+                        if w is None:
+                            st.d['inconclusive'].append(f'{key}: machines not isomorphic and BMC over its path budget')
+                        else:
+                            wit += w
+                    for x in wit[:2]:
+                        ta = m2m.concrete_trace(ma, L, x['input'], x['end']); tb = m2m.concrete_trace(mb, L, x['input'], x['end'])
+                        out['findings'].append(_finding(job, name, 'c20-diff', 'machines from two compilations of the same input differ', f"{ref_name} vs {name}: {x['detail']}", 'input', bytes=x['input'],
+                                                        replay={'reproduced': ta != tb, 'a': str(ta)[:400], 'b': str(tb)[:400]}))
+            except absm.Unsupported:
+                raise
+            except Exception as e:
+                # one history that cannot be encoded must not hide what the other histories show
+                st.d['harness_errors'].append(f"{key}: comparison failed: {type(e).__name__}: {str(e)[:200]} | {traceback.format_exc()[-300:]}")
         st.d['cov']['programs'] = 1
         st.d['cov']['compilations'] = len(runs)
         out['stats'] = st.d
@@ -89,11 +162,150 @@ def work(job):
     return out
 
 
+# ---------------------------------------------------------------------------------------------------------------------------
+# Programs of C20's own (in addition to the corpus): names that mean several things at once, so that the ORDER in which the kinds of a
+# name are tried decides what the program means (documented: macro before hook in a call; macro argument before global; expr argument
+# before output), and programs whose global names are what an aborted macro expansion of an earlier program would leave behind.
+GENERATED = {
+    # a hook and a macro share a name and the name is called (reference manual: the macro takes priority)
+    'call-hook-macro-same-name': """out int value = 0;
+hook header;
+macro header() {
+    "HDR:";
+}
+parser {
+    header();
+    foreach {
+        /\\d+/;
+    } do {
+        value = [value * 10 + ($last - '0')];
+    }
+    ";";
+}
+""",
+    # ... the macro does not match anything: only the hook call / the assignment tells the two meanings apart
+    'call-hook-macro-same-name-actions': """out int n = 0;
+hook note;
+macro note() {
+    n = [n + 1];
+}
+parser {
+    "a";
+    note();
+    "b";
+    note();
+}
+""",
+    # inside a macro: the called name is a `macro` argument and a global hook
+    'call-macroarg-vs-global-hook': """out int n = 0;
+hook h;
+macro real() {
+    "R";
+    n = 1;
+}
+macro call(macro h) {
+    h();
+}
+parser {
+    call(real);
+    "x";
+}
+""",
+    # inside a macro: the called name is a `hook` argument and a global macro
+    'call-hookarg-vs-global-macro': """out int n = 0;
+hook other;
+macro h() {
+    "M";
+    n = 2;
+}
+macro call(hook h) {
+    h();
+}
+parser {
+    call(other);
+    "x";
+}
+""",
+    # both at once, nested, with a second hook
+    'call-nested-shared-names': """out int n = 0;
+hook a;
+hook b;
+macro a() {
+    "A";
+    n = [n + 1];
+}
+macro b() {
+    "B";
+    n = [n + 2];
+}
+macro twice(macro b, hook a) {
+    b();
+    a();
+}
+parser {
+    twice(a, b);
+    ";";
+}
+""",
+    # an `expr` argument called like an output (read and written in the body): assignment source tries expr, then out
+    'exprarg-vs-output': """out int n = 5;
+out int x = 0;
+out str[8] s;
+macro put(expr n, expr s) {
+    x = n;
+    "p";
+    x = [x + n];
+}
+parser {
+    "a";
+    put(7, "zz");
+    x = [x + n];
+    s += /[a-c]+/;
+    ";";
+}
+""",
+    # the later program of the history dimension: outputs read in expressions, a named loop, a finish code, a hook, a macro
+    'globals-read-in-expressions': """out int step = 1;
+out int total = 0;
+out bool seen = false;
+out str[6] word;
+hook tick;
+finishcode EARLY;
+macro bump() {
+    total = [total + step];
+}
+parser {
+    "a";
+    bump();
+    loop outer {
+        case {
+            "b" -> { bump(); tick(); }
+            "c" -> { seen = true; break outer; }
+            "f" -> { finish EARLY; }
+        }
+    }
+    word += /[x-z]+/;
+    if total > step && word.len > step { "!"; }
+    ";";
+}
+""",
+}
+
+
 def main(tier, replay_path):
     run = chk.Run(PID, tier, 'translation_validation', 'real compiler in separate processes (histories x PYTHONHASHSEED); machines compared by absm one-step simulation / BMC; z3')
     seeds = [0, 1, 2] if tier == 'quick' else [0, 1, 2, 3, 5, 8, 13, 21]
+    # histories that are not about hashing (leftovers of rejected macro expansions, of other option sets) run under these seeds only
+    history_seeds = [0] if tier == 'quick' else [0, 21]
+    os.environ['C20_TIER'] = tier   # read by the (forked) workers
     run.functions = ['ProgramData._reset_flags / _ensure_refmapped (per-run reset)', 'whole front end + DfaCompileCtx.compile under different histories and hash seeds']
-    run.bounds = {'hash_seeds': seeds, 'histories': ['fresh process', 'after k other programs', 'twice in a row after GC/allocation perturbation'], 'bmc_K_when_not_isomorphic': 4 if tier == 'quick' else 6}
+    run.bounds = {'hash_seeds': seeds, 'hash_seeds_generated_programs': sorted(set(seeds) | {3, 4, 5, 6, 7}), 'history_seeds': history_seeds,
+                  'histories': ['fresh process', 'after k other programs', 'twice in a row after GC/allocation perturbation',
+                                'after a program rejected inside a macro whose expr arguments are called like this program\'s outputs',
+                                'after programs rejected inside nested macro expansions (one level per argument kind, arguments called like this program\'s globals) and inside nested blocks',
+                                'after compilations of another program (thorough: and of the same program) under other option sets (-O0 + flags, -O3, -O2 + flags and -fno-)'],
+                  'compared': ['verdict and error class', 'effective flag map and option values', 'declared outputs', 'machine (solver)'],
+                  'bmc_K_when_not_isomorphic': 4 if tier == 'quick' else 6}
     run.assumptions = ['machines are exported by pickling the real DFA objects', 'structural correspondence (untrusted) is verified by the solver step by step']
     files = nm.corpus_files(('example', 'ok', 'fail', 'verif'))
     rnd = random.Random(chk.seed())
@@ -102,19 +314,32 @@ def main(tier, replay_path):
         others = rnd.sample([f for f in files if f != p], 3 if tier == 'quick' else 6)
         label = os.path.relpath(p, chk.REPO) if p.startswith(chk.REPO) else os.path.relpath(p, chk.VERIF)
         jobs.append({'label': label, 'path': p, 'src': nm.read(p), 'others': others, 'seeds': seeds, 'K': 4 if tier == 'quick' else 6, 'max_paths': 2000 if tier == 'quick' else 8000})
+    for name, src in GENERATED.items():
+        # these are about the order in which a frozenset/dict of kinds is walked: more seeds (0,1,4,6 and 2,3,5,7 order enum members differently)
+        # (the extra seeds only add the fresh compilation: the other histories are not about hashing)
+        jobs.append({'label': 'gen/c20/' + name, 'path': None, 'generated': True, 'src': src, 'others': rnd.sample(files, 3 if tier == 'quick' else 6), 'seeds': sorted(set(seeds) | {3, 4, 5, 6, 7}),
+                     'fresh_only_seeds': sorted({3, 4, 5, 6, 7} - set(seeds)), 'K': 6, 'max_paths': 8000})
     # optimisation passes iterate over sets too: small programs are also compiled at -O3 under every seed/history
     for j in list(jobs):
-        if len(j['src']) < 1500 and (tier != 'quick' or '/corpus/' in j['path']):
-            jobs.append(dict(j, label=j['label'] + ' -O3', flags=('-O3',), seeds=j['seeds'] + ([4, 7] if tier == 'quick' else [])))
+        # (of the check's own programs only those with data flow: what the others are about is decided in the front end)
+        if len(j['src']) < 1500 and ((j['label'] in ('gen/c20/globals-read-in-expressions', 'gen/c20/exprarg-vs-output')) if j.get('generated') else (tier != 'quick' or '/corpus/' in j['path'])):
+            jobs.append(dict(j, label=j['label'] + ' -O3', flags=('-O3',), seeds=sorted(set(j['seeds']) | ({4, 7} if tier == 'quick' else set()))))
+    # the histories that leave something behind on purpose (aborted macro expansions, other option sets) do not depend on the hash seed: they are separate jobs
+    # (own fresh reference, seeds = history_seeds) so that the longest program does not get longer
+    for j in list(jobs):
+        # (quick tier: the -O3 twin of a program repeats only the option history; the aborted expansions are front-end matters and are run for the program itself)
+        hs = 'after-options' if tier == 'quick' and j.get('flags') and not j.get('generated') else 'after-rejected-expr after-rejected-macro after-options'
+        jobs.append(dict(j, label=j['label'] + ' [histories]', seeds=history_seeds, fresh_only_seeds=(), histories=hs))
     jobs.sort(key=lambda j: -len(j['src']))
     orig = l3check.work
     l3check.work = work
     try:
-        consume(run, l3check.run_jobs(jobs), ('c20-diff', 'c20-verdict'), PID)
+        consume(run, l3check.run_jobs(jobs), ('c20-diff', 'c20-verdict', 'c20-config'), PID)
     finally:
         l3check.work = orig
     return run.finish('Each program is compiled by the real compiler in separate processes under several PYTHONHASHSEEDs and, inside each process, fresh / after other programs / twice in a row with '
-                      'allocation perturbation; verdicts must agree and every machine is compared with the reference machine: a structural correspondence is verified by the solver as a one-step '
+                      'allocation perturbation / after programs that are rejected in the middle of macro expansions whose argument names are this program\'s global names / after compilations '
+                      'under other option sets; verdicts, effective flag maps, option values and declared outputs must agree and every machine is compared with the reference machine: a structural correspondence is verified by the solver as a one-step '
                       'simulation in eager normal form for every byte/End and all data (equivalence on every input); otherwise BMC from start().')
 
 
